@@ -469,6 +469,29 @@ pub fn run(tier: Tier) -> i32 {
     }
     rep.distinct_nontrivial = cancelled_mid_total;
     rep.distinct_outcomes = outcome_kinds.len() as u64;
+    // server level: an edit arriving while a request of each kind is inside its analysis
+    if std::path::Path::new(&crate::lsp::proc::server_bin()).exists() {
+        let mut sl = Layer { name: "server-edit-during-request".into(), exhaustive: true, ..Default::default() };
+        let probes = crate::props::race::edit_during_request_probes();
+        let mut names = vec![];
+        for (name, problems) in probes {
+            sl.states += 1;
+            sl.executions += 1;
+            sl.transitions += 4;
+            names.push(name.clone());
+            for (class, detail) in problems {
+                if class == "machinery" {
+                    rep.machinery(format!("{name}: {detail}"));
+                } else {
+                    rep.violation(Violation { class: class.clone(), key: format!("server|{class}|{}", name.split(' ').next().unwrap_or("")), witness: json!({"server_probe": name}), detail: format!("[real server, {name} stopped at its first cancellation checkpoint, then didChange] {detail}") });
+                }
+            }
+        }
+        sl.bound = format!("real server under the yield-point scheduler: each of {} request kinds is stopped at the first cancellation checkpoint of its analysis, then the client sends a didChange: the edit must pass the document store (cancel, not wait), the request is answered exactly once, the canary is answered; kinds: {names:?}", names.len());
+        rep.layer(sl);
+    } else {
+        rep.machinery("server binary not built (needed for the server-level layer)");
+    }
     rep.rule = "a schedule = (scenario, queries, checkpoint index at which each reader is parked when the writer starts, release order); non-trivial = schedules in which a reader was cancelled mid-query".into();
     rep.sample(json!({"scenario": "signature-edit-cold", "readers": [["Hover", 19, 37]], "order": [0]}));
     rep.assumptions = vec!["interleavings between two checkpoints inside salsa/parking_lot are not controlled (trusted base)".into(), "cancellation is observed only at salsa query entry (WillCheckCancellation), so the checkpoint index is the complete schedule space for one reader".into()];
@@ -479,6 +502,9 @@ pub fn run(tier: Tier) -> i32 {
 }
 
 pub fn replay(w: &Value) -> Vec<String> {
+    if let Some(name) = w["server_probe"].as_str() {
+        return crate::props::race::edit_during_request_probes().into_iter().filter(|(n, _)| n == name).flat_map(|(_, p)| p.into_iter().map(|(c, d)| format!("{c}: {d}"))).collect();
+    }
     let scs = scenarios();
     let Some(sc) = scs.iter().find(|s| Some(s.name) == w["scenario"].as_str()) else { return vec!["unknown scenario".into()] };
     let menu = query_menu();
